@@ -2,12 +2,17 @@
 
 What is proved (lean/NumqiProps/C02.lean): the parameter-count formulas of every module constructor equal the
 manifold dimension plus the stated number of gauge directions (all d, r); the linear placements (generators of
-SO/SU, traceless symmetric/Hermitian matrices, Stiefel pre-factors) are injective; the differentials of exp and of
-the Cayley transform at 0 are id and -2 id.  What is only probed: the rank of the differential at a generic point
+SO/SU, traceless symmetric/Hermitian matrices; the Stiefel polar/qr pre-factor `placement_stiefel_injective`, the choleskyL
+pre-factor `placement_cholL_injective`, and the PSD Cholesky factor up to its one scale direction
+`placement_psd_factor_injective`) are injective; the differentials of exp and of the Cayley transform at 0 are id and
+-2 id; the vector charts (sphere, ball, softmax, probability sphere) and the scalar charts (softplus, exp, open interval)
+have their differential and its rank proved at every admissible point.  What is only probed: the rank of the differential at a generic point
 (autograd Jacobian, singular-value criterion) — search, not proof.
 
 Correspondence (exact): `theta.shape[-1]` of every class/option vs the model's count, and the model's claimed rank vs
-the formula of the property statement.
+the formula of the property statement.  Correspondence (float64, C01 tolerances): the OUTPUT of every functional map
+differentiated by the probe (`to_*` of `_internal.py` / `_stiefel.py`) against the Lean model of the same map, sent from here
+through the `C02 map <C01 op>` driver prefix — so the probe's Jacobian is the Jacobian of a map that is tied to the model.
 """
 import itertools, math
 import numpy as np
@@ -18,7 +23,8 @@ LEVEL = 'proof'
 RULE = ('correspondence: one op = one (class, options, dim, rank): constructor parameter count read from Class(...).theta.shape[-1] and the '
         'functional map accepting exactly that length, against the Lean count; plus the claimed rank against the formula of the property '
         'statement; exhaustive over dims 2..8, all ranks, all options. Probe: autograd Jacobian at random normal theta (3 draws, 5 in thorough) '
-        'for dims 2..5, all ranks, real/complex, every method; distinct = distinct (config, draw).')
+        'for dims 2..5, all ranks, real/complex, every method; distinct = distinct (config, draw). Map tie: every functional map (numpy and torch, float64) '
+        'vs the Lean model through `C02 map …` at random theta; PositiveReal / OpenInterval parameter counts for batch_size None, 1, 3.')
 TRUSTED = ['Lean 4.33 kernel', 'axioms: propext, Classical.choice, Quot.sound', 'Lean compiler for the driver executable',
            'harness/c02.py (exact integer comparison; singular-value rank criterion of the probe)',
            'NOT PROVED, probed only: rank of the differential at generic theta (real-analytic maps: rank at a generic point = maximal rank) and the '
@@ -46,11 +52,18 @@ def guarded(f):
 # ---------------------------------------------------------------------------
 # configurations: (op line for the model, constructor, functional map theta->array, expected rank by the property statement)
 # ---------------------------------------------------------------------------
-def configs(dims):
+def configs(dims, single=False):
     import torch
     Mm = M()
     out = []
-    cdt = {True: torch.float64, False: torch.complex128}
+    cdt = {True: torch.float32, False: torch.complex64} if single else {True: torch.float64, False: torch.complex128}
+    if 2 in dims:
+        for meth in ('softplus', 'exp'):
+            out.append(dict(op='C02 posreal 2', scalar='posreal', name=f'PositiveReal({meth})', mk=lambda bs=None, meth=meth: Mm.PositiveReal(bs, meth),
+                            fn=lambda t, meth=meth: (Mm.to_positive_real_softplus if meth == 'softplus' else Mm.to_positive_real_exp)(t)))
+        for lo, hi in ((-0.5, 2.0), (1.0, 1.25), (-3.0, -1.0)):
+            out.append(dict(op='C02 interval 2', scalar='interval', name=f'OpenInterval({lo},{hi})', mk=lambda bs=None, lo=lo, hi=hi: Mm.OpenInterval(lo, hi, bs),
+                            fn=lambda t, lo=lo, hi=hi: Mm.to_open_interval(t, lo, hi)))
     for d in dims:
         for real in (True, False):
             rc = 'r' if real else 'c'
@@ -118,6 +131,39 @@ def model_lines(cfgs):
     return res
 
 
+def map_tie(ctx):
+    """the map constants whose differentials C02 talks about (ballVec, sphereQuotientVec, sphereCoordVec, softmaxVec, probSphereVec, psdCholesky, psdEnsemble,
+    symmetricMatrix, soGenerator/soExp/soCayley, stiefel*, softplus/exp/interval) tied to the real functions from THIS check (torch = the branch that autograd
+    differentiates, and numpy), through the C02 driver (`C02 map <op …>` = the same model ops as the C01 driver)"""
+    from . import c01
+    rng = np.random.default_rng(ctx.np_seed + 11)
+    specs = c01.all_specs(ctx, rng)
+    ops, meta = [], []
+    for spec in specs:
+        for backend in ('torch', 'np'):
+            shp = () if rng.random() < 0.5 or isinstance(spec, c01.StEuler) else (2,)
+            th = c01.draw_theta(rng, spec, shp, False, None, True)
+            y = guarded(lambda: c01.to_np(spec.call(c01.to_backend(th, backend, False))))
+            rows = th.reshape(-1, spec.nparam())
+            osz = int(np.prod(spec.out_shape()))
+            for s_ in range(rows.shape[0]):
+                ops.append('C02 map ' + spec.op(rows[s_]).split(' ', 1)[1])
+                meta.append((spec, backend, rows[s_], y if isinstance(y, str) else np.asarray(y).reshape(-1, osz)[s_].reshape(spec.out_shape())))
+    out = common.run_model(ops)
+    for op, (spec, backend, th, y), line in zip(ops, meta, out):
+        ctx.count('map-' + spec.name)
+        if isinstance(y, str) or line == 'bad-op':
+            ctx.disagree(op[:800], line[:200], y if isinstance(y, str) else 'array'); continue
+        m = c01.parse_out(line).astype(np.complex128)
+        yv = spec.canon(th, np.asarray(y)) if isinstance(spec, c01.StQR) else np.asarray(y)
+        yv = yv.reshape(-1).astype(np.complex128)
+        err = c01.rel_err(yv, m) if m.shape == yv.shape else float('inf')
+        if not (err <= c01.TOL64):
+            ctx.disagree(op[:800], line[:200], f'rel. diff {err:.3e} ({backend})')
+        else:
+            ctx.agree(op, ('map', spec.key(), backend, op))
+
+
 def correspondence(ctx):
     """model count == theta.shape[-1] of the constructor, for every class / option / batch_size, and the functional map accepts exactly that length.
     (The *rank* column of the model is not compared with anything re-typed here: it is confronted with the real Jacobian in the probe.)"""
@@ -129,6 +175,20 @@ def correspondence(ctx):
         ctx.count(c['op'].split(' ')[1])
         if m_ is None:
             ctx.disagree(c['op'] + ' ' + c['name'], 'bad-op', 'constructor exists'); continue
+        if 'scalar' in c:
+            # PositiveReal / OpenInterval: theta has `1 if batch_size is None else batch_size` entries (no parameter axis)
+            for bs in (None, 1, 3):
+                line = common.run_model([f"C02 {c['scalar']} {bs or 0}"])[0]
+                m = guarded(lambda: c['mk'](bs))
+                with torch.no_grad():
+                    out_ = m if isinstance(m, str) else guarded(lambda: m())
+                want = 'constructor/forward raised' if isinstance(out_, str) else f'{int(m.theta.shape[0])} {int(m.theta.shape[0])}'
+                shp_ok = (not isinstance(out_, str)) and m.theta.ndim == 1 and tuple(out_.shape) == (() if (bs is None and c['scalar'] == 'interval') else tuple(m.theta.shape))
+                if line == want and shp_ok:
+                    ctx.agree(f"C02 {c['scalar']} {bs or 0} {c['name']}", (c['name'], bs))
+                else:
+                    ctx.disagree(f"C02 {c['scalar']} {bs or 0} {c['name']}", line, f'{want} (theta.shape {None if isinstance(m, str) else tuple(m.theta.shape)}, output shape {None if isinstance(out_, str) else tuple(out_.shape)})')
+            continue
         for bs in (None, 3):
             m = guarded(lambda: c['mk'](bs))
             if isinstance(m, str):
@@ -141,8 +201,43 @@ def correspondence(ctx):
                 ctx.agree(f"{c['op']} {c['name']} bs={bs}", (c['name'], bs))
             else:
                 ctx.disagree(f"{c['op']} {c['name']} bs={bs}", str(m_[0]), f'{n_impl} (theta.shape {tuple(m.theta.shape)}; functional map: {ok if isinstance(ok, str) else "accepts"})')
-    # sizes given as numpy integers instead of Python ints must give the same constructor (dtype class of the hardening list)
+    # round 6 — options never driven before: single precision dtypes (float32 / complex64: same counts, float32 parameters, single-precision output),
+    # the documented default rank=None of Trace1PSD (-> dim), euler_with_phase=True with a real dtype (no phase parameters are added)
+    cfgs32 = [c for c in configs([2, 3, 4] if ctx.quick() else dims, single=True) if 'scalar' not in c and not c['op'].startswith('C02 prob')]
+    for c, m_ in zip(cfgs32, model_lines(cfgs32)):
+        ctx.count('single-precision')
+        m = guarded(lambda: c['mk'](None))
+        with torch.no_grad():
+            y = m if isinstance(m, str) else guarded(lambda: m())
+        if isinstance(y, str) or m_ is None:
+            ctx.disagree(c['op'] + ' ' + c['name'] + ' [single precision]', str(m_), f'constructor/forward raised {y}'); continue
+        if int(m.theta.shape[-1]) == m_[0] and m.theta.dtype == torch.float32 and y.dtype in (torch.float32, torch.complex64):
+            ctx.agree(f"{c['op']} {c['name']} [single precision]", (c['name'], 'single'))
+        else:
+            ctx.disagree(f"{c['op']} {c['name']} [single precision]", str(m_[0]), f'{int(m.theta.shape[-1])} parameters of dtype {m.theta.dtype}, output {y.dtype}')
     Mm = M()
+    extra = []
+    for d in dims:
+        for real in (True, False):
+            rc = 'r' if real else 'c'
+            dt = torch.float64 if real else torch.complex128
+            for chol in (True, False):
+                extra.append((f'C02 psd {d} {d} {rc} {int(chol)}', f'Trace1PSD({d},rank=None,{rc},{"cholesky" if chol else "ensemble"})',
+                              lambda d=d, dt=dt, chol=chol: Mm.Trace1PSD(d, method='cholesky' if chol else 'ensemble', dtype=dt)))
+        for r in range(1, d + 1):
+            extra.append((f'C02 stiefel {d} {r} r euler 0', f'Stiefel({d},{r},r,euler,euler_with_phase=True)',
+                          lambda d=d, r=r: Mm.Stiefel(d, r, method='euler', euler_with_phase=True, dtype=torch.float64)))
+    for (op, name, mk), line in zip(extra, common.run_model([e[0] for e in extra])):
+        ctx.count('default-options')
+        m = guarded(mk)
+        with torch.no_grad():
+            y = m if isinstance(m, str) else guarded(lambda: m())
+        got = f'raised {y}' if isinstance(y, str) else str(int(m.theta.shape[-1]))
+        if not isinstance(y, str) and line.split(' ')[0] == got:
+            ctx.agree(op + ' ' + name, (name, 'default'))
+        else:
+            ctx.disagree(op + ' ' + name, line, got)
+    # sizes given as numpy integers instead of Python ints must give the same constructor (dtype class of the hardening list)
     for d, r in ((3, 2), (4, 4)):
         for name, mk in (('Ball', lambda D, R: Mm.Ball(D)), ('Sphere', lambda D, R: Mm.Sphere(D)), ('DiscreteProbability', lambda D, R: Mm.DiscreteProbability(D)),
                          ('Trace1PSD', lambda D, R: Mm.Trace1PSD(D, R)), ('SymmetricMatrix', lambda D, R: Mm.SymmetricMatrix(D)),
@@ -159,6 +254,7 @@ def correspondence(ctx):
             ctx.disagree(f'{name}({d},{r}) with np.int64/np.int32 sizes', str(shp(a)), f'{shp(b)} / {shp(c_)}')
     for c, m_ in list(zip(cfgs, ml))[:3]:
         ctx.sample({'op': c['op'], 'class': c['name'], 'model(count, rank)': m_})
+    map_tie(ctx)
     ctx.extra['exhaustive'] = True
     ctx.extra['exhaustive_domain'] = f'every class/option (incl. weight= of DiscreteProbability, batch_size None/3), dims {dims[0]}..{dims[-1]}, all ranks: constructor parameter count'
 
@@ -210,7 +306,7 @@ def probe(ctx):
         # all configurations for d <= 4 and a seeded half of d = 5 (thorough: everything)
         keep = []
         for c in cfgs:
-            d = int(c['op'].split(' ')[2])
+            d = 2 if 'scalar' in c else int(c['op'].split(' ')[2])
             p = 1.0 if d <= 4 else 0.5
             if rng.random() < p or ('cayley' in c['name'] and ',r,' in c['name']) or 'weight=' in c['name']:
                 keep.append(c)
@@ -236,6 +332,8 @@ def probe(ctx):
             p_.requires_grad_(False)
         n = int(m.theta.shape[-1])
         k = m_[1] * (1 if batch is None else batch)      # a batched module is `batch` independent copies: block-diagonal Jacobian
+        if 'scalar' in c:
+            k = 1 if batch is None else batch           # one chart of rank 1 per entry (model: scalarParam)
         name = c['name'] + ('' if batch is None else f'[batch_size={batch}]')
         results = []
         attempts = 0
